@@ -119,19 +119,26 @@ def _print_ok(s, soft) -> bool:
     return isinstance(c.file.getvalue(), str)
 
 
-_PRINT_SIGMA = "a [\n\t\u4e2d\u0301\x1b\r:\\"
+_PRINT_SIGMA = "a [\n\t\u4e2d\u0301\x1b\r:\\\U000f0001\U0001f600"
 
 
-@symx("C14-print-plain", timeout=1500, kind="P",
-      functions=["rich/console.py:Console.print", "rich/text.py:Text.__init__", "rich/console.py:Console.render_str"],
-      bounds="Console.print(s, markup=False) and print(Text(s)) for every s of 0..4 characters over %r (solver-enumerated, "
-             "native), width 10, soft_wrap on/off: never raises" % (_PRINT_SIGMA,))
-def c14_print(e):
-    n = int(e.mk("n", 0, 4))
-    cs = [int(e.mk("c%d" % i, 0, len(_PRINT_SIGMA) - 1)) for i in range(n)]
-    soft = e.mkbool("soft_wrap")
-    s = "".join(_PRINT_SIGMA[c] for c in cs)
-    return _print_ok(s, True if soft else False)
+def _mk_print(nmax, tiers, timeout):
+    @symx("C14-print-plain-len%d" % nmax, tiers=tiers, timeout=timeout, kind="P",
+          functions=["rich/console.py:Console.print", "rich/text.py:Text.__init__", "rich/console.py:Console.render_str"],
+          bounds="Console.print(s, markup=False) and print(Text(s)) for every s of 0..%d characters over %r (ASCII, bracket, newline, "
+                 "tab, double-width, combining, ESC, CR, private-use astral, emoji; solver-enumerated, native), width 10, soft_wrap "
+                 "on/off: never raises" % (nmax, _PRINT_SIGMA))
+    def h(e):
+        n = int(e.mk("n", 0, nmax))
+        cs = [int(e.mk("c%d" % i, 0, len(_PRINT_SIGMA) - 1)) for i in range(n)]
+        soft = e.mkbool("soft_wrap")
+        s = "".join(_PRINT_SIGMA[c] for c in cs)
+        return _print_ok(s, True if soft else False)
+    return h
+
+
+_mk_print(3, ("quick",), 900)
+_mk_print(4, ("thorough",), 2400)
 
 
 # --- rendering and measuring never raise, at any width >= 1 (C+S) -----------------------------------------------------
